@@ -1656,7 +1656,10 @@ class Scope:
                     if not self.is_arr(base):
                         self.store(out, base, lab, new | tv)
             if not self.is_arr(tv) and not self.is_arr(rhs):
-                self.store(out, tv, WILD, self.elem(out, rhs, view=True))  # list += iterable: the elements are kept
+                el = self.elem(out, rhs, view=True)
+                self.store(out, tv, WILD, el)  # list += iterable: the elements are kept
+                if isinstance(s.op, ast.BitOr):
+                    self.store(out, tv, WILD, self.elem(out, el, view=True))  # dict |= pairs
             elif not self.is_arr(tv) and (rhs.own or rhs.unknown):
                 self.store(out, tv, WILD, rhs)
             if isinstance(s.target, ast.Name) and not self.is_arr(tv) and s.target.id in self.vars:
@@ -2454,7 +2457,10 @@ class Scope:
                 if name in STORING_SELF:
                     self.store(out, recv, WILD, union(flow))
                 if name in STORING_ELEMS:
-                    self.store(out, recv, WILD, self.elem(out, union(flow), view=True))
+                    el = self.elem(out, union(flow), view=True)
+                    self.store(out, recv, WILD, el)
+                    if name == "update":  # dict.update(pairs): the elements of the pairs
+                        self.store(out, recv, WILD, self.elem(out, el, view=True))
             res = res | self.elem(out, recv, view=True) | (union(flow) if name == "setdefault" else FRESH)
             handled = True
         elif name in COPY_METHODS and not skip_builtin:
@@ -2592,6 +2598,8 @@ class Scope:
             items = [self.elem(out, a, view=True) for a in args]
             if "itertools.chain.from_iterable" in cands:
                 items = [self.elem(out, i, view=True) for i in items]
+            if cands & {"dict", "collections.OrderedDict", "collections.defaultdict"}:
+                items += [self.elem(out, i, view=True) for i in items]  # dict(pairs): the elements of the pairs
             items += [v for k, v in kwargs.items() if k not in ("key", "reverse", "strict", "repeat", "start")]
             tags = {a.tag for a in args if not a.neutral()}
             tag = next(iter(tags)) if len(tags) == 1 else None
